@@ -61,6 +61,20 @@ pub fn generate(_ctx: &mut Ctx, seed: u64, i: usize, max_blocks: usize) -> Case 
         }
         files.push((path, Some(text)));
     }
+    // one case in three: a block of a synchronous validator that is violated (mostly of a severity that does not fail the run),
+    // in a file of its own or appended to a scripted file - a failing script must still fail the run, a passing one must not hide it
+    if rng.chance(1, 3) {
+        let sev = ["warning", "info", "hint", "warning", "error"][rng.below(5)];
+        let rule = ["keep-sorted", "keep-unique", "line-count=\"<1\""][rng.below(3)];
+        let block = format!("# <block name=\"sync\" {rule} severity=\"{sev}\">\nb\na\nb\n# </block>\n");
+        let hash: Vec<usize> = files.iter().enumerate().filter(|(_, f)| f.0.ends_with(".py") || f.0.ends_with(".sh")).map(|(k, _)| k).collect();
+        if !hash.is_empty() && rng.chance(1, 2) {
+            let k = *rng.pick(&hash);
+            if let Some(t) = files[k].1.as_mut() { t.push_str(&block); }
+        } else {
+            files.push(("w.py".to_string(), Some(block)));
+        }
+    }
     let mut walk: Vec<String> = files.iter().map(|f| f.0.clone()).collect();
     rng.shuffle(&mut walk);
     Case {
